@@ -598,6 +598,15 @@ theorem body_check_operands (defs : List GateDef) (params qargs : List Str) (n :
     simp [bodyCheck, this]
   · simp [bodyCheck, h1, h2]
 
+/-- **Redeclaration (repaired importer)**: a second declaration of a register name (as `qreg` or `creg`) and a second
+definition of a user gate are refused by `_initialize_pass`, whatever follows. -/
+theorem import_rejects_redeclaration (hfix : Gen.redeclChecked = true) (st : Init) (ss : List Stmt) :
+    (∀ n k, regDeclared st n = true → initPass (.qreg n k :: ss) st = .error .value ∧
+      initPass (.creg n k :: ss) st = .error .value) ∧
+    (∀ d : GateDef, gateDeclared st d.name = true → initPass (.gate d :: ss) st = .error .value) :=
+  ⟨fun n k h => ⟨by simp [initPass, hfix, h], by simp [initPass, hfix, h]⟩,
+   fun d h => by simp [initPass, hfix, h]⟩
+
 /-! concrete malformed programs, each refused by the model (and by the code: correspondence) -/
 
 private def hdr : List Stmt :=
@@ -680,6 +689,30 @@ theorem body_unchecked_counterexample : Gen.bodyChecked = false →
   first
     | exact fun h => absurd h (by decide)
     | exact fun _ => ⟨⟨_, rfl⟩, ⟨_, rfl⟩, ⟨_, rfl⟩⟩
+
+/-- redeclarations on the repaired tree: a gate defined twice, a register declared twice (as qreg, as creg) -/
+theorem import_redeclaration_witnesses : Gen.redeclChecked = true →
+    importProgram (hdr ++ [.gate ⟨cs!"g", [], [cs!"a"], [.call cs!"x" [] [cs!"a"]]⟩, .qop (.call cs!"g" [] [.idx cs!"q" 0]),
+      .gate ⟨cs!"g", [], [cs!"a"], [.call cs!"z" [] [cs!"a"]]⟩, .qop (.call cs!"g" [] [.idx cs!"q" 0])]) = .error .value ∧
+    importProgram (hdr ++ [.qreg cs!"q" 1]) = .error .value ∧
+    importProgram (hdr ++ [.creg cs!"r" 1]) = .error .value := by
+  first
+    | exact fun h => absurd h (by decide)
+    | exact fun _ => ⟨rfl, rfl, rfl⟩
+
+/-- the ORIGINAL code: `gate g a { x a; } g q[0]; gate g a { z a; } g q[0];` is imported, and BOTH calls get the
+expansion of the LAST definition (definitions are collected before the calls are processed); the standard refuses the
+program -/
+theorem redeclaration_counterexample : Gen.redeclChecked = false →
+    let p := hdr ++ [.gate ⟨cs!"g", [], [cs!"a"], [.call cs!"x" [] [cs!"a"]]⟩, .qop (.call cs!"g" [] [.idx cs!"q" 0]),
+      .gate ⟨cs!"g", [], [cs!"a"], [.call cs!"z" [] [cs!"a"]]⟩, .qop (.call cs!"g" [] [.idx cs!"q" 0])]
+    importProgram p = .ok (5, 2,
+      [.custom cs!"g" [0] none none [⟨cs!"Z", [0], none, .none, none, none⟩],
+       .custom cs!"g" [0] none none [⟨cs!"Z", [0], none, .none, none, none⟩]]) ∧
+    flatten p = .error .redeclared := by
+  first
+    | exact fun h => absurd h (by decide)
+    | exact fun _ => ⟨rfl, rfl⟩
 
 /-- parameters are substituted as whole identifiers: `gate g(x,xx) a { rx(xx) a; } g(1,2) q[0];`
 expands to `RX(2)` and `gate g(p) a { rx(pi*p) a; } g(3) q[0];` to `RX(pi*3)` -/
